@@ -1,2 +1,348 @@
-//! C05 workload (under construction).
-fn main() {}
+//! C05 — shifts (value and lost-bit flags), rotations, arithmetic shift,
+//! every integer-typed << / >> overload and Uint-typed shift amounts.
+
+use num_bigint::BigUint;
+use num_traits::Zero;
+use ruint::Uint;
+use vmon::{an, au, big, gen, uint, Arg, Mon};
+
+vmon::widths!(exec; 0, 1, 2, 3, 7, 8, 16, 31, 32, 33, 60, 63, 64, 65, 100, 127, 128, 129, 160, 192, 193,
+    250, 255, 256, 257, 320, 384, 512, 521, 1024, 2048, 4096);
+
+/// Expected (value, lost-bits flag) of a left shift by `s`.
+fn shl_oracle(v: &BigUint, s: u128, bits: usize) -> (Vec<u64>, bool) {
+    if v.is_zero() {
+        return (gen::zero(bits), false);
+    }
+    if s >= bits as u128 {
+        return (gen::zero(bits), true);
+    }
+    let e = v << (s as usize);
+    (big::wrap(&e, bits), !big::fits(&e, bits))
+}
+
+fn shr_oracle(v: &BigUint, s: u128, bits: usize) -> (Vec<u64>, bool) {
+    if v.is_zero() {
+        return (gen::zero(bits), false);
+    }
+    if s >= bits as u128 {
+        return (gen::zero(bits), true);
+    }
+    let s = s as usize;
+    let q = v >> s;
+    let lost = !(v % big::p2(s)).is_zero();
+    (big::limbs(&q, gen::nlimbs(bits)), lost)
+}
+
+macro_rules! typed_shifts {
+    ($m:ident, $x:ident, $s:ident, $e_shl:ident, $e_shr:ident, $do_shl:ident; $($t:ty),*) => {$(
+        if let Ok(amt) = <$t>::try_from($s) {
+            if $do_shl {
+                if let Some(v) = $m.must(|| $x << amt) { $m.eq_uint(concat!("op<<.", stringify!($t), ".v"), &v, &$e_shl); }
+                if let Some(v) = $m.must(|| $x << &amt) { $m.eq_uint(concat!("op<<.", stringify!($t), ".r"), &v, &$e_shl); }
+                if let Some(v) = $m.must(|| { let mut z = $x; z <<= amt; z }) { $m.eq_uint(concat!("op<<=.", stringify!($t), ".v"), &v, &$e_shl); }
+                if let Some(v) = $m.must(|| { let mut z = $x; z <<= &amt; z }) { $m.eq_uint(concat!("op<<=.", stringify!($t), ".r"), &v, &$e_shl); }
+            } else {
+                if let Some(v) = $m.must(|| $x >> amt) { $m.eq_uint(concat!("op>>.", stringify!($t), ".v"), &v, &$e_shr); }
+                if let Some(v) = $m.must(|| $x >> &amt) { $m.eq_uint(concat!("op>>.", stringify!($t), ".r"), &v, &$e_shr); }
+                if let Some(v) = $m.must(|| { let mut z = $x; z >>= amt; z }) { $m.eq_uint(concat!("op>>=.", stringify!($t), ".v"), &v, &$e_shr); }
+                if let Some(v) = $m.must(|| { let mut z = $x; z >>= &amt; z }) { $m.eq_uint(concat!("op>>=.", stringify!($t), ".r"), &v, &$e_shr); }
+            }
+        }
+    )*};
+}
+
+fn exec<const B: usize, const L: usize>(m: &mut Mon, op: &str, a: &[Arg]) {
+    let x: Uint<B, L> = uint(a[0].u());
+    let bv = big::big(a[0].u());
+    match op {
+        "shl" => {
+            let s128 = a[1].n();
+            let s = s128 as usize;
+            let (e, lost) = shl_oracle(&bv, s128, B);
+            m.nontrivial(!bv.is_zero() && s != 0);
+            m.obs(|| format!("value={} lost_bits={}", big::hex(&e), lost));
+            if let Some((v, f)) = m.must(|| x.overflowing_shl(s)) {
+                m.eq_uint("overflowing_shl.value", &v, &e);
+                m.eq("overflowing_shl.flag", &f, &lost);
+            }
+            if let Some(v) = m.must(|| x.wrapping_shl(s)) {
+                m.eq_uint("wrapping_shl", &v, &e);
+            }
+            if let Some(v) = m.must(|| x.checked_shl(s)) {
+                match v {
+                    Some(v) => {
+                        if m.eq("checked_shl.some", &true, &!lost) {
+                            m.eq_uint("checked_shl.value", &v, &e);
+                        }
+                    }
+                    None => {
+                        m.eq("checked_shl.none", &true, &lost);
+                    }
+                }
+            }
+            if let Some(v) = m.must(|| x.saturating_shl(s)) {
+                let es = if lost { gen::max(B) } else { e.clone() };
+                m.eq_uint("saturating_shl", &v, &es);
+            }
+            let do_shl = true;
+            let dummy = &e;
+            typed_shifts!(m, x, s128, e, dummy, do_shl; usize, u8, u16, u32, u64, isize, i8, i16, i32, i64);
+        }
+        "shr" => {
+            let s128 = a[1].n();
+            let s = s128 as usize;
+            let (e, lost) = shr_oracle(&bv, s128, B);
+            m.nontrivial(!bv.is_zero() && s != 0);
+            m.obs(|| format!("value={} lost_bits={}", big::hex(&e), lost));
+            if let Some((v, f)) = m.must(|| x.overflowing_shr(s)) {
+                m.eq_uint("overflowing_shr.value", &v, &e);
+                m.eq("overflowing_shr.flag", &f, &lost);
+            }
+            if let Some(v) = m.must(|| x.wrapping_shr(s)) {
+                m.eq_uint("wrapping_shr", &v, &e);
+            }
+            if let Some(v) = m.must(|| x.checked_shr(s)) {
+                match v {
+                    Some(v) => {
+                        if m.eq("checked_shr.some", &true, &!lost) {
+                            m.eq_uint("checked_shr.value", &v, &e);
+                        }
+                    }
+                    None => {
+                        m.eq("checked_shr.none", &true, &lost);
+                    }
+                }
+            }
+            // arithmetic shift replicates bit BITS-1
+            if B > 0 {
+                let sign = a[0].u()[(B - 1) / 64] >> ((B - 1) % 64) & 1 == 1;
+                let mut ea = e.clone();
+                if sign {
+                    let k = s.min(B);
+                    // top k bits set
+                    let fill = gen::ones(B, B).iter().zip(gen::ones(B - k, B).iter()).map(|(h, l)| h & !l).collect::<Vec<u64>>();
+                    for (x, f) in ea.iter_mut().zip(fill.iter()) {
+                        *x |= f;
+                    }
+                }
+                if let Some(v) = m.must(|| x.arithmetic_shr(s)) {
+                    m.eq_uint("arithmetic_shr", &v, &ea);
+                }
+            } else if let Some(v) = m.must(|| x.arithmetic_shr(s)) {
+                m.eq_uint("arithmetic_shr", &v, &[]);
+            }
+            let do_shl = false;
+            let dummy = &e;
+            typed_shifts!(m, x, s128, dummy, e, do_shl; usize, u8, u16, u32, u64, isize, i8, i16, i32, i64);
+        }
+        "rot" => {
+            let s = a[1].n() as usize;
+            m.nontrivial(!bv.is_zero() && s != 0);
+            let (el, er) = if B == 0 {
+                (vec![], vec![])
+            } else {
+                let k = s % B;
+                let full = big::p2(B);
+                let l = ((&bv << k) % &full) | (&bv >> (B - k));
+                let r = (&bv >> k) | ((&bv << (B - k)) % &full);
+                (big::limbs(&l, L), big::limbs(&r, L))
+            };
+            m.obs(|| format!("left={} right={}", big::hex(&el), big::hex(&er)));
+            if let Some(v) = m.must(|| x.rotate_left(s)) {
+                m.eq_uint("rotate_left", &v, &el);
+            }
+            if let Some(v) = m.must(|| x.rotate_right(s)) {
+                m.eq_uint("rotate_right", &v, &er);
+            }
+        }
+        "shift_uint" => {
+            // shift amount given as a Uint of the same width, any magnitude
+            let amt: Uint<B, L> = uint(a[1].u());
+            let ba = big::big(a[1].u());
+            let s128: u128 = if ba.bits() > 100 { u128::MAX } else { ba.iter_u64_digits().enumerate().map(|(i, d)| u128::from(d) << (64 * i)).sum() };
+            let (el, _) = shl_oracle(&bv, s128, B);
+            let (er, _) = shr_oracle(&bv, s128, B);
+            m.nontrivial(!bv.is_zero() && !ba.is_zero());
+            m.obs(|| format!("shl={} shr={}", big::hex(&el), big::hex(&er)));
+            if let Some(v) = m.must(|| x << amt) {
+                m.eq_uint("op<<.Uint.v", &v, &el);
+            }
+            if let Some(v) = m.must(|| x << &amt) {
+                m.eq_uint("op<<.Uint.r", &v, &el);
+            }
+            if let Some(v) = m.must(|| {
+                let mut z = x;
+                z <<= amt;
+                z
+            }) {
+                m.eq_uint("op<<=.Uint.v", &v, &el);
+            }
+            if let Some(v) = m.must(|| {
+                let mut z = x;
+                z <<= &amt;
+                z
+            }) {
+                m.eq_uint("op<<=.Uint.r", &v, &el);
+            }
+            if let Some(v) = m.must(|| x >> amt) {
+                m.eq_uint("op>>.Uint.v", &v, &er);
+            }
+            if let Some(v) = m.must(|| x >> &amt) {
+                m.eq_uint("op>>.Uint.r", &v, &er);
+            }
+            if let Some(v) = m.must(|| {
+                let mut z = x;
+                z >>= amt;
+                z
+            }) {
+                m.eq_uint("op>>=.Uint.v", &v, &er);
+            }
+            if let Some(v) = m.must(|| {
+                let mut z = x;
+                z >>= &amt;
+                z
+            }) {
+                m.eq_uint("op>>=.Uint.r", &v, &er);
+            }
+        }
+        _ => panic!("harness: unknown op {op}"),
+    }
+}
+
+fn all3(m: &mut Mon, bits: usize, v: &[u64], s: usize) {
+    m.case("shl", bits, vec![au(v), an(s)]);
+    m.case("shr", bits, vec![au(v), an(s)]);
+    m.case("rot", bits, vec![au(v), an(s)]);
+}
+
+fn workload(m: &mut Mon, bits: usize) {
+    let l = gen::nlimbs(bits);
+    let top = bits + 64 * l + 1;
+    let full_grid = bits <= 64 || (bits <= 257 && m.cfg.scale >= 8.0);
+    // positions of the single set bit
+    let positions: Vec<usize> = if bits == 0 {
+        vec![]
+    } else if full_grid {
+        (0..bits).collect()
+    } else {
+        let mut p = vec![0, 1, bits - 1, bits.saturating_sub(2), bits / 2];
+        for k in (64..bits).step_by(64) {
+            p.extend([k - 1, k, k + 1]);
+        }
+        p.retain(|&x| x < bits);
+        p.sort_unstable();
+        p.dedup();
+        p
+    };
+    let amounts: Vec<usize> = if bits <= 257 {
+        (0..=top).collect()
+    } else {
+        let mut s = vec![0, 1, 2, 31, 32, 33, 63, 64, 65, 127, 128, 129, bits - 1, bits, bits + 1, 64 * l - 1, 64 * l, 64 * l + 1, top];
+        for k in (64..bits).step_by(if bits > 1024 { 512 } else { 64 }) {
+            s.extend([k - 1, k, k + 1]);
+        }
+        s.sort_unstable();
+        s.dedup();
+        s
+    };
+    let mut values: Vec<Vec<u64>> = positions.iter().map(|&p| gen::pow2(p, bits)).collect();
+    values.push(gen::max(bits));
+    values.push(gen::zero(bits));
+    let mut r = m.stream("c05.values", bits);
+    for _ in 0..3 {
+        values.push(gen::alphabet(&mut r, bits));
+    }
+    if bits > 1 {
+        // single zero bits
+        for &p in positions.iter().take(8) {
+            let mut v = gen::max(bits);
+            v[p / 64] &= !(1 << (p % 64));
+            values.push(v);
+        }
+    }
+    for v in &values {
+        for &s in &amounts {
+            if !m.keep() {
+                continue;
+            }
+            all3(m, bits, v, s);
+        }
+        if m.time_up() {
+            break;
+        }
+    }
+    if bits <= 257 && !m.is_light() {
+        m.mark_exhaustive(format!(
+            "BITS={bits}: every shift amount in [0, BITS+64*LIMBS+1] x {} single-bit positions (+ all-ones, zero, alphabet values)",
+            positions.len()
+        ));
+    }
+    // huge amounts through the usize methods and operators
+    for &s in &[usize::MAX, usize::MAX - 1, 1usize << 32, (1usize << 32) + 1, 1usize << 63, u32::MAX as usize, i32::MAX as usize, 65535, 65536] {
+        for v in values.iter().take(3).chain(values.iter().rev().take(5)) {
+            all3(m, bits, v, s);
+        }
+    }
+    // Uint-typed amounts of any magnitude
+    let mut r = m.stream("c05.uint", bits);
+    let mut amts: Vec<Vec<u64>> = vec![gen::zero(bits), gen::small(1, bits), gen::small(63, bits), gen::small(64, bits),
+        gen::small(65, bits), gen::small(bits as u64, bits), gen::small(bits as u64 + 1, bits),
+        gen::small(bits.saturating_sub(1) as u64, bits), gen::max(bits), gen::small(u64::MAX, bits)];
+    if bits > 64 {
+        amts.push(gen::pow2(64, bits)); // 2^64: low limb zero
+        let mut v = gen::pow2(64, bits);
+        v[0] = 3;
+        amts.push(v); // 2^64 + 3
+        amts.push(gen::pow2(bits - 1, bits));
+        let mut v = gen::pow2(bits - 1, bits);
+        v[0] = 1;
+        amts.push(v);
+    }
+    for _ in 0..m.iters(40) {
+        amts.push(gen::hostile(&mut r, bits));
+        amts.push(gen::small(r.below(top + 2) as u64, bits));
+    }
+    for amt in &amts {
+        for v in values.iter().take(4).chain(values.iter().rev().take(6)) {
+            if !m.keep() {
+                continue;
+            }
+            m.case("shift_uint", bits, vec![au(v), au(amt)]);
+        }
+    }
+    // random
+    let mut r = m.stream("c05.random", bits);
+    let iters = m.iters(if bits <= 256 { 4000 } else if bits <= 1024 { 1500 } else { 400 });
+    for i in 0..iters {
+        if i % 256 == 0 && m.time_up() {
+            break;
+        }
+        let v = gen::hostile(&mut r, bits);
+        let s = match r.below(6) {
+            0 => r.below(top + 2),
+            1 => 64 * r.below(l + 2),
+            2 => (64 * r.below(l + 2)).saturating_sub(1),
+            3 => bits.saturating_sub(r.below(3)),
+            4 => bits + r.below(3),
+            _ => r.below(bits + 1),
+        };
+        all3(m, bits, &v, s);
+        if i % 4 == 0 {
+            let amt = if r.bool() { gen::small(s as u64, bits) } else { gen::hostile(&mut r, bits) };
+            m.case("shift_uint", bits, vec![au(&v), au(&amt)]);
+        }
+    }
+}
+
+fn main() {
+    let mut m = Mon::new("C05", dispatch);
+    if !m.replay_if_requested() {
+        for &bits in WIDTHS {
+            if m.width_enabled(bits) {
+                workload(&mut m, bits);
+            }
+        }
+    }
+    m.finish();
+}
